@@ -18,7 +18,21 @@ namespace {
       for (auto v : a) { if (k < 6) o.a[k++] = v; }
       return o;
    }
-   template<class T> int64_t last_index(const Pool<T>& p) { return p.empty() ? 0 : int64_t(p.size() - 1); }
+   // selectors that designate an exact pool index are even (odd selectors prefer recent objects, see Pool::pick)
+   template<class T> int64_t last_index(const Pool<T>& p) { return p.empty() ? 0 : 2 * int64_t(p.size() - 1); }
+   inline int64_t exact(int64_t index) { return 2 * index; }
+}
+
+void World::reg_product(const ipr::Product& prod, const std::vector<const ipr::Type*>& elements)
+{
+   Reading e(int(Category_code::Product));
+   std::vector<Ref> elems;
+   for (auto t : elements) elems.push_back(nref(*t));
+   e.q("elements", elems);
+   expect_composite(e, *this);
+   REG(prod, e, false);
+   add_type(prod);
+   products.add_unique(&prod);
 }
 
 Ref World::apply_macros(const Op& op)
@@ -44,14 +58,16 @@ Ref World::apply_macros(const Op& op)
    }
    case OP_macro_var: {
       // name : type (initializer), with home region, lexical region and linkage set
-      const int64_t region = op.a[0];
-      (void) R(region);
-      Ref d = nested(mk(OP_make_var, { region, op.a[1], op.a[2] }));
+      impl::Region& rg = R(op.a[0]);
+      int64_t ri = 0, ai = 0;
+      for (size_t k = 0; k < regions.size(); ++k) if (regions.v[k] == &rg) ri = int64_t(k);
+      for (size_t k = 0; k < any_regions.size(); ++k) if (any_regions.v[k] == static_cast<const ipr::Region*>(&rg)) ai = int64_t(k);
+      Ref d = nested(mk(OP_make_var, { exact(ri), op.a[1], op.a[2] }));
       if (d == nullptr or failed()) return d;
       const int64_t vi = last_index(ivars);
       nested(mk(OP_set_decl_fields, { 0, vi, op.a[3] }));                     // initializer (older than the variable)
-      nested(mk(OP_set_decl_fields, { 1, vi, region }));                      // lexical region
-      nested(mk(OP_set_decl_fields, { 2, vi, region }));                      // home region
+      nested(mk(OP_set_decl_fields, { 1, vi, exact(ai) }));                   // lexical region
+      nested(mk(OP_set_decl_fields, { 2, vi, exact(ai) }));                   // home region
       nested(mk(OP_set_decl_fields, { 3, vi, op.a[4] }));                     // linkage
       if (uint64_t(op.a[5]) % 3 == 0) nested(mk(OP_set_stmt_fields, { int64_t(stmt_handles.size()) - 1, 0, op.a[3], op.a[4], op.a[5] }));
       return d;
@@ -73,23 +89,23 @@ Ref World::apply_macros(const Op& op)
       }
       const int64_t s0 = int64_t(stmts.size());
       // compound statements over the leaves (their parts are older than they are)
-      nested(mk(OP_make_if3, { op.a[3], s0 * 13 + 6 - 13, s0 * 13 + 6 - 26 }));
+      nested(mk(OP_make_if3, { op.a[3], (s0 - 1) * 26 + 6, (s0 - 2) * 26 + 6 }));
       Ref w = nested(mk(OP_make_while, { }));
-      if (w) { nested(mk(OP_set_loop_fields, { 2, last_index(whiles), op.a[3], 0 })); nested(mk(OP_set_loop_fields, { 3, last_index(whiles), (s0 - 1) * 13 + 6, 0 })); }
+      if (w) { nested(mk(OP_set_loop_fields, { 2, last_index(whiles), op.a[3], 0 })); nested(mk(OP_set_loop_fields, { 3, last_index(whiles), (s0 - 1) * 26 + 6, 0 })); }
       Ref f = nested(mk(OP_make_for, { }));
-      if (f) for (int64_t part = 0; part < 4; ++part) nested(mk(OP_set_loop_fields, { 5, last_index(fors), op.a[3] + part, s0 - 1 - part, part }));
+      if (f) for (int64_t part = 0; part < 4; ++part) nested(mk(OP_set_loop_fields, { 5, last_index(fors), op.a[3] + part, exact(s0 - 1 - part), part }));
       Ref dw = nested(mk(OP_make_do, { }));
-      if (dw) { nested(mk(OP_set_loop_fields, { 0, last_index(dos), op.a[3] + 1, 0 })); nested(mk(OP_set_loop_fields, { 1, last_index(dos), (s0 - 2) * 13 + 6, 0 })); }
-      nested(mk(OP_make_labeled_stmt, { op.a[3] + 2, (s0 - 1) * 13 + 6 }));
+      if (dw) { nested(mk(OP_set_loop_fields, { 0, last_index(dos), op.a[3] + 1, 0 })); nested(mk(OP_set_loop_fields, { 1, last_index(dos), (s0 - 2) * 26 + 6, 0 })); }
+      nested(mk(OP_make_labeled_stmt, { op.a[3] + 2, (s0 - 1) * 26 + 6 }));
       // the block that contains them
       Ref b = nested(mk(OP_make_block, { op.a[0], op.a[5] }));
       if (b == nullptr) return nullptr;
       const int64_t bi = last_index(blocks);
       const int64_t s1 = int64_t(stmts.size());
-      for (int64_t k = 0; k < s1 - s0 + width and k < 10; ++k) nested(mk(OP_block_add_stmt, { bi, (s1 - 2 - k) * 13 + 6 }));
+      for (int64_t k = 0; k < s1 - s0 + width and k < 10; ++k) nested(mk(OP_block_add_stmt, { bi, (s1 - 2 - k) * 26 + 6 }));
       if (uint64_t(op.a[5]) % 3 == 0) {
          nested(mk(OP_block_new_handler, { bi, op.a[1], op.a[2] }));
-         nested(mk(OP_handler_add_stmt, { last_index(handlers), (s0 - 1) * 13 + 6 }));
+         nested(mk(OP_handler_add_stmt, { last_index(handlers), (s0 - 1) * 26 + 6 }));
       }
       return b;
    }
@@ -107,9 +123,15 @@ Ref World::apply_macros(const Op& op)
       SUT_DO(delete wh);
       const ipr::Type& ret = T(op.a[4]);
       const ipr::Function& ft = SUT(lex->get_function(*prod, ret));
+      reg_product(*prod, ptypes);
+      {
+         Reading e(int(Category_code::Function));
+         e.r("first", nref(*prod)).r("second", nref(ret)).r("third", nref(L.false_value()));
+         e.r("type", nref(L.typename_type())).r("transfer.linkage", nref(L.cxx_linkage().language().what())).r("transfer.convention", nref(ipr::String::empty_string()));
+         REG(ft, e, false);
+      }
       add_type(ft);
       functions.add_unique(&ft);
-      products.add_unique(prod);
       // the body: a statement tree built first (it must be older than the mapping)
       Ref body = nested(mk(OP_macro_stmt_tree, { op.a[0], op.a[2], op.a[3], op.a[4], op.a[5], op.a[1] + 1 }));
       if (failed()) return nullptr;
@@ -201,9 +223,9 @@ Ref World::apply_macros(const Op& op)
          for (size_t k = 0; k < regions.size(); ++k) if (regions.v[k] == body) body_region = int64_t(k);
          const int64_t nmembers = 1 + int64_t(uint64_t(op.a[2]) % 4);
          for (int64_t k = 0; k < nmembers; ++k) {
-            if (kind == 3) nested(mk(OP_macro_var, { body_region, op.a[3] + 3 * k + 1, op.a[4] + k, op.a[2] + k, k, k }));
+            if (kind == 3) nested(mk(OP_macro_var, { exact(body_region), op.a[3] + 3 * k + 1, op.a[4] + k, op.a[2] + k, k, k }));
             else {
-               nested(mk(OP_make_field, { body_region, op.a[3] + 3 * k + 1, op.a[4] + k }));
+               nested(mk(OP_make_field, { exact(body_region), op.a[3] + 3 * k + 1, op.a[4] + k }));
                if (k == 0 and not ifields.empty()) nested(mk(OP_set_decl_fields, { 6, last_index(ifields), op.a[2] }));
             }
          }
@@ -218,8 +240,8 @@ Ref World::apply_macros(const Op& op)
       for (size_t k = 0; k < regions.size(); ++k) if (regions.v[k] == &rg) ri = int64_t(k);
       int64_t kind_type_index = 0;
       for (size_t k = 0; k < types.size(); ++k) if (types.v[k] == kind_type) kind_type_index = int64_t(k);
-      Ref td = nested(mk(OP_make_typedecl, { ri, op.a[1], kind_type_index }));
-      if (td != nullptr) nested(mk(OP_set_decl_fields, { 8, last_index(itypedecls), ti }));
+      Ref td = nested(mk(OP_make_typedecl, { exact(ri), op.a[1], exact(kind_type_index) }));
+      if (td != nullptr) nested(mk(OP_set_decl_fields, { 8, last_index(itypedecls), exact(ti) }));
       return c;
    }
    case OP_macro_template: {
@@ -234,10 +256,16 @@ Ref World::apply_macros(const Op& op)
       try { prod = &SUT(lex->get_product(*wh)); }
       catch (...) { SUT_DO(delete wh); throw; }
       SUT_DO(delete wh);
-      products.add_unique(prod);
+      reg_product(*prod, ptypes);
       const ipr::Type* target = &T(op.a[4]);
       if (Rec* tr = rec(nref(*target)); tr != nullptr and is_udt_category(tr->exp.cat)) target = &L.int_type();
       const ipr::Forall& fa = SUT(lex->get_forall(*prod, *target));
+      {
+         Reading e(int(Category_code::Forall));
+         e.r("first", nref(*prod)).r("second", nref(*target));
+         expect_composite(e, *this);
+         REG(fa, e, false);
+      }
       add_type(fa);
       foralls.add_unique(&fa);
       Ref mref = nested(mk(OP_make_mapping, { op.a[0], op.a[5] + 1 }));
@@ -254,10 +282,10 @@ Ref World::apply_macros(const Op& op)
       nested(mk(OP_set_callable_fields, { 0, last_index(mappings), op.a[3] }));          // the body (older than the mapping)
       int64_t ri = 0;
       for (size_t k = 0; k < regions.size(); ++k) if (regions.v[k] == &rg) ri = int64_t(k);
-      Ref t = nested(mk(OP_make_primary_template, { ri, op.a[1], last_index(foralls) }));
+      Ref t = nested(mk(OP_make_primary_template, { exact(ri), op.a[1], last_index(foralls) }));
       if (t != nullptr) {
          nested(mk(OP_set_decl_fields, { 11, last_index(itemplates), last_index(mappings) }));
-         nested(mk(OP_set_decl_fields, { 12, last_index(itemplates), ri, 2 }));
+         nested(mk(OP_set_decl_fields, { 12, last_index(itemplates), exact(ri), 2 }));
       }
       return t;
    }
